@@ -102,10 +102,14 @@ impl<const D: usize> SurfaceDeviationSet<D> {
         self.values.iter()
     }
 
+    #[cfg_attr(kani, kani::requires(crate::verif_kani::deviations::devset_inv(&self.values, |v| v.deviation, self.max_index, self.min_index)))]
+    #[cfg_attr(kani, kani::ensures(|r: &Option<&SurfaceDeviation<D>>| crate::verif_kani::deviations::post_extreme(&self.values, |v| v.deviation, r.map(|d| d.deviation), true)))]
     pub fn max(&self) -> Option<&SurfaceDeviation<D>> {
         self.max_index.map(|i| &self.values[i])
     }
 
+    #[cfg_attr(kani, kani::requires(crate::verif_kani::deviations::devset_inv(&self.values, |v| v.deviation, self.max_index, self.min_index)))]
+    #[cfg_attr(kani, kani::ensures(|r: &Option<&SurfaceDeviation<D>>| crate::verif_kani::deviations::post_extreme(&self.values, |v| v.deviation, r.map(|d| d.deviation), false)))]
     pub fn min(&self) -> Option<&SurfaceDeviation<D>> {
         self.min_index.map(|i| &self.values[i])
     }
@@ -121,6 +125,8 @@ impl<const D: usize> SurfaceDeviationSet<D> {
     /// measure outside of that context. It is not the same as the range of the deviations.
     /// Instead, it takes the larger of the absolute values of the maximum and minimum deviations
     /// and returns the double of that value.
+    #[cfg_attr(kani, kani::requires(crate::verif_kani::deviations::devset_inv(&self.values, |v| v.deviation, self.max_index, self.min_index)))]
+    #[cfg_attr(kani, kani::ensures(|r: &f64| crate::verif_kani::deviations::post_zone_size(&self.values, |v| v.deviation, *r)))]
     pub fn symmetrical_zone_size(&self) -> f64 {
         if self.is_empty() {
             return 0.0;
